@@ -1,7 +1,7 @@
 (** C12 laws, part 9: a readable form of the cascade's post-condition, and Examples showing that
     the hypotheses of the main theorems are satisfiable by non-trivial inputs. *)
 From Coq Require Import List ZArith Bool Arith Lia.
-From VibeSQL Require Import Store.Fk Store.FkLaws Store.FkDeleteLaws Store.FkStepLaws Store.FkUpdateLaws Store.FkTheorems Store.FkTermination Store.FkWitness Store.FkActionLaws.
+From VibeSQL Require Import Store.Fk Store.FkLaws Store.FkDeleteLaws Store.FkStepLaws Store.FkUpdateLaws Store.FkTheorems Store.FkTermination Store.FkWitness Store.FkActionLaws Store.FkCascadeLaws Store.FkDepthLaws.
 Import ListNotations.
 
 (** what a successful, event-free check_no_child_references establishes *)
@@ -109,3 +109,30 @@ Example ex_set_null :
   set_null 2 (mkFk [1] 1 [0] ASetNull ACascade) [v 10] (ex_db, []) =
   OOk (set_rows ex_db 2 [[v 20; None]; [v 21; v 12]; [v 22; v 11]], []).
 Proof. vm_compute. reflexivity. Qed.
+
+(** the hypotheses of [delete_terminates_without_cycle]: a parent with two CASCADE children rows *)
+Definition ex_acyc : db := [parent0 [[v 1; None]]; child1 ACascade ANoAction None [[v 10; v 1]; [v 11; v 1]]].
+
+Example ex_no_cycle : inv ex_acyc /\ nsd ex_acyc /\ no_cascade_cycle_from ex_acyc (0, [v 1]).
+Proof.
+  split; [apply inv_b_inv; vm_compute; reflexivity|]. split.
+  { intros ct fk [<-|[<-|[]]] Hfk Ha; cbn in Hfk; [contradiction|]. destruct Hfk as [<-|[]]. discriminate. }
+  intros l Hl.
+  (* a chain has at most one link: the children are not referenced by anybody *)
+  assert (LEAF : forall y l', fst y = 1 -> chain ex_acyc y l' -> l' = []).
+  { intros y l' Hy Hc. destruct Hc as [|x z l2 [ct [fk [r [pkc [Hct [Hfk [Hp _]]]]]]] _]; [reflexivity|].
+    exfalso. destruct Hct as [<-|[<-|[]]]; cbn in Hfk; [contradiction|]. destruct Hfk as [<-|[]]. cbn in Hp. congruence. }
+  destruct Hl as [|x y l2 [ct [fk [r [pkc [Hct [Hfk [Hp [_ [Hr [_ [Hpk ->]]]]]]]]]]] Hc]; [constructor|].
+  destruct Hct as [<-|[<-|[]]]; cbn in Hfk; [contradiction|].
+  assert (L2 : l2 = []) by (eapply LEAF; [|exact Hc]; reflexivity). rewrite L2. repeat constructor. intros [].
+Qed.
+
+(** the rows a DELETE may drop: the statement of [delete_drops_only_doomed] on the three-level example *)
+Example ex_doomed : doomed ex_db 0 (selected_rows ex_db 0 (Some (PCmp 0 OLt 3))) 1 [v 10; v 1].
+Proof.
+  eapply (dm_cas ex_db 0 _ 0 (parent0 [[v 1; None]; [v 2; None]; [v 3; None]]) [0] [v 1; None]
+            (child1 ACascade ACascade None [[v 10; v 1]; [v 11; v 1]; [v 12; v 2]; [v 13; None]])
+            (mkFk [1] 0 [0] ACascade ACascade));
+    try reflexivity; try (cbn; auto; fail).
+  apply dm_sel. vm_compute. left. reflexivity.
+Qed.
